@@ -46,7 +46,7 @@ static void attempt(World &w, uint32_t op) {
     case 30: { DataArray bad = w.b.createDataArray("bad", "t", DataType::Double, NDSize({3})); std::string before = observe(w.f);
                try { w.mtag.extents(bad); } catch (...) { nixsym_assert(observe(w.f) == before, "rejected extents(shape mismatch) left a trace"); throw; } break; }
     case 31: { std::vector<double> v = {1, 2, 3}; w.da1.setData(DataType::Double, v.data(), NDSize({3}), NDSize({2})); break; }   // leaves the data
-    case 32: w.prop.values({Variant(1.0), Variant(std::string("two"))}); break;
+    case 32: w.prop.values({Variant(1.0), Variant(2.0), Variant(std::string("three"))}); break;
     case 33: w.prop.values({Variant(std::string("text"))}); break;
     case 34: w.df.writeRow(0, {Variant(std::string("wrong")), Variant(std::string("x")), Variant(1.0)}); break;
     case 35: w.df.writeRow(5, {Variant((int64_t)1), Variant(std::string("x")), Variant(1.0)}); break;
